@@ -55,11 +55,15 @@ def allelePairRep (c : Call) : Option Nat :=
   | [j, k] => if c.phased then diploidGtIndex j (j + k) else diploidGtIndex j k
   | _ => none
 
+/-- `int_rep = 0; int_rep |= value.ploidy << 1; if value.phased: int_rep |= 1` -/
+def tagBits (ploidy : Nat) (phased : Bool) : Nat :=
+  let r := 0 ||| (ploidy <<< 1)
+  if phased then r ||| 1 else r
+
 /-- `int_rep` just before the signed wrap (a non-negative unbounded Python int). -/
 def encodeRaw (c : Call) : Option Nat :=
   let ploidy := c.alleles.length
-  let r := 0 ||| (ploidy <<< 1)
-  let r := if c.phased then r ||| 1 else r
+  let r := tagBits ploidy c.phased
   if ploidy ≤ 2 then        -- `assert value.ploidy <= 2`
     match c.alleles with
     | [a] => some (r ||| (a <<< 3))
